@@ -3,6 +3,7 @@
 # Self-test of the machinery against the seeded changes, in ISOLATION from /repo and /verif:
 # each worker owns a private copy of /verif (with its build output) and a private clone of /repo, so the real
 # /repo is never touched and the registered checks can keep running meanwhile. Results: <outdir>/<id>.log, <outdir>/<id>.json
+# MATRIX_PROPS=target runs only the check of the property the change breaks (default: all 19).
 # Copies live under /root/mx (outside /repo and /verif) and are removed at the end.
 set -u
 NW=${1:-3}; OUT=${2:-/verif/work/matrix}; shift 2 || true
@@ -11,7 +12,7 @@ mkdir -p "$OUT"
 if [ $# -gt 0 ]; then LIST=("$@"); else
   LIST=(); for d in $VERIF/seeded/*/ $VERIF/selftest/*/; do [ -f "$d/patch.diff" ] && LIST+=("${d%/}"); done
 fi
-BASE=/root/mx
+BASE=/root/mx/$$
 mkdir -p $BASE
 worker() {
   local w=$1; shift
@@ -23,7 +24,13 @@ worker() {
   sed -i "s#path = \"/repo\"#path = \"$R\"#" $V/harness/Cargo.toml
   for d in "$@"; do
     local id; id=$(basename $d); case $d in */selftest/*) id="selftest:$id";; esac
-    ( cd $V && VERIF_REPO=$R python3 tools/run_mutant.py $d/patch.diff --repo $R --json "$OUT/$id.json" ) > "$OUT/$id.log" 2>&1
+    local PR=""
+    if [ "${MATRIX_PROPS:-all}" = "target" ]; then
+      local t; t=$(python3 -c "import json,sys; m=json.load(open('$d/meta.json')) if __import__('os').path.exists('$d/meta.json') else {}; print(m.get('breaks_property') or m.get('breaks') or '')")
+      [ -z "$t" ] && t=$(basename $d | cut -c1-3)
+      PR="--props $t"
+    fi
+    ( cd $V && VERIF_REPO=$R python3 tools/run_mutant.py $d/patch.diff --repo $R --json "$OUT/$id.json" $PR ) > "$OUT/$id.log" 2>&1
     echo "done $id"
   done
   rm -rf $BASE/w$w
@@ -34,5 +41,5 @@ for ((w=0; w<NW; w++)); do
   [ ${#MY[@]} -gt 0 ] && worker $w "${MY[@]}" &
 done
 wait
-rmdir $BASE 2>/dev/null
+rmdir $BASE /root/mx 2>/dev/null
 echo matrix done
